@@ -58,7 +58,7 @@ Print Assumptions C08_full_statement_when_no_lossy_schema.
 
 (* On the current tree the translator finds no lossy schema (msgp_lossy = []), so the full
    statement holds for every schema of the tree.  If a hand-written UnmarshalMsg stops copying its
-   fields back (as node.Pool did before fe880b9) the translator reports it, this theorem stops
+   fields back (as node.Pool did before 5d92d1d) the translator reports it, this theorem stops
    checking and the engine shows the lost value. *)
 Theorem C08_full_statement_holds : C08_full_statement.
 Proof. exact msgp_full_holds. Qed.
